@@ -5,7 +5,7 @@ cd "$(dirname "$0")"
 coq_makefile -f _CoqProject -o Makefile.coq >/dev/null
 timeout 3000 make -f Makefile.coq -j16 "$@"
 cd extracted
-if [ ! -x model_driver ] || [ ../Ser.vo -nt model_driver ] || [ driver.ml -nt model_driver ]; then
+if [ ! -x model_driver ] || [ ../Ser.vo -nt model_driver ] || [ ../SerdeM.vo -nt model_driver ] || [ Extract.v -nt model_driver ] || [ driver.ml -nt model_driver ]; then
   timeout 600 coqc -Q .. Foca Extract.v
   timeout 600 ocamlfind ocamlopt -package str model.mli model.ml driver.ml -o model_driver
 fi
